@@ -7,7 +7,7 @@ from ..gen import J
 from . import lincommon as lc
 
 PROP = "C07"
-HOSTILE = ('scale', 'mean')
+HOSTILE = ('scale', 'mean', 'special')
 MONITORS = ("WF", "DENS", "CACHE")
 REQUIRED_MONITORS = ("CACHE",)
 ANCHORS = [("conditional.py", "ConditionalGaussianPDF.affine_joint_transformation"),
